@@ -22,9 +22,34 @@
 //! `c18-cli` (oracle) and `c18-cliout` (model) run the real `qmluic generate-ui` BINARY built from /repo's
 //! current working tree (`crate::env::cli_binary()`, `$QV_QMLUIC_BIN` overrides) in a fresh copy of the layout:
 //! `c18-cli`: exit status and the set + content of the written `.ui` files are the same for every order of the
-//! source arguments (≤ 6 orders per generated layout; all orders in the corpus); `c18-cliout`: exit status and
+//! source arguments (≤ 6 orders per generated layout — the given one, its reverse, the sorted one the preflight ran
+//! with, and others spread over the enumeration; all orders in the corpus; a run of the binary is made once per
+//! (layout, order, flags) and shared between `c18-cli6`, `c18-cliout` and the preflight); `c18-cliout`: exit status and
 //! written files equal the Lean model's `cliRun` over the per-source outcomes — answer
 //!   (cli (exit 0|1) (written "a/x.ui" …)).
+//!
+//! Added for the import-spelling / processed-once / termination clauses:
+//!  * a layout may hold symbolic links to directories, `(link ("a" "ln") ("b"))` inside `(tree …)`; such layouts are
+//!    outside the Lean model (canonical component lists) and get the Rust-side oracles only;
+//!  * and symbolic links to QML files, `(flink ("a") "Alias" ("b") "X")` (family "file-alias", generated once finding
+//!    F50 is listed in KNOWN_FINDINGS.json);
+//!  * PREFLIGHT: before anything is run in-process, the real binary is run once per (layout, source set) with
+//!    `QMLUIC_LOG=qmluic::qmldir=trace`, its memory limited (`ulimit -v`) and killed as soon as it has logged more
+//!    `processing directory` lines than there are directories (or after a time limit): a discovery that does not
+//!    terminate, or blows up, is reported as `(fail "preflight" …)` for every request on that layout instead of
+//!    taking the harness down;
+//!  * `c18-once` (oracle, the real binary's log): every directory is processed exactly once — no canonical directory
+//!    twice, every file of a processed directory once, and the processed set = the directories reachable on the real
+//!    file system (`canonicalize`d, so `..`, `./`, `//`, trailing `/`, symlinks and two spellings of one directory
+//!    are one directory);
+//!  * `c18-resolve` (oracle, in-process): for every source, the number of "module not found" diagnostics = the number
+//!    of its imports that do not lead to an existing directory (resp. are unknown named modules), there is no
+//!    "directory module not found", and a type `X` with an `X.qml` (with root object) in the source's directory or
+//!    in an imported existing directory is never an "unknown object type"; and an instance of a component whose chain
+//!    of root types leads (unambiguously, judged on the files) to a Qt class that has the bound property is not
+//!    diagnosed with "unknown property" and carries the property in the .ui;
+//!  * `c18-nolower` (oracle, the real binary with `--no-lowercase-file-name`): an accepted source `dir/X.qml` is
+//!    written to `dir/X.ui` and every `<customwidget>` header is `<Class>.h` in the original case.
 use crate::env::{self, Mode};
 use crate::rng::Rng;
 use crate::sexp::{atom, boolean, list, node, st, Sexp};
@@ -37,9 +62,10 @@ use qmluic::metatype_tweak;
 use qmluic::qmldir;
 use qmluic::qmldoc::UiDocumentsCache;
 use qmluic::typemap::{ModuleData, ModuleId, NamedType, TypeMap, TypeSpace};
-use std::collections::{BTreeMap, BTreeSet};
+use std::collections::{BTreeMap, BTreeSet, HashMap};
 use std::fs;
 use std::sync::atomic::{AtomicU64, Ordering};
+use std::sync::{Arc, Mutex, OnceLock};
 
 const QT_MODULE: &str = "qmluic.QtWidgets";
 /// Qt classes a generated file may name (all are plain widgets except QObject)
@@ -64,13 +90,28 @@ static COUNTER: AtomicU64 = AtomicU64::new(0);
 pub struct C18 {
     classes: Vec<metatype::Class>,
     qt: Vec<(String, bool, Vec<String>)>,
+    preflights: Mutex<HashMap<String, Arc<OnceLock<Result<Preflight, String>>>>>,
+    /// runs of the real binary, keyed by layout + ORDERED source list + flags (the preflight run is one of them)
+    cli_runs: Mutex<HashMap<String, Arc<OnceLock<CliOut>>>>,
+}
+
+type CliOut = (i32, BTreeMap<String, String>);
+
+/// what the real binary logged while discovering directories for one (layout, source set)
+#[derive(Clone, Debug)]
+struct Preflight {
+    exit: i32,
+    /// `processing directory` lines: (path as logged, canonical path relative to the layout root)
+    dirs: Vec<(String, String)>,
+    /// `processing file` lines, canonical and relative to the layout root
+    files: Vec<String>,
 }
 
 impl C18 {
     pub fn new() -> Self {
         let mut classes = env::load_qt_classes();
         metatype_tweak::apply_all(&mut classes);
-        let mut me = C18 { classes, qt: vec![] };
+        let mut me = C18 { classes, qt: vec![], preflights: Mutex::new(HashMap::new()), cli_runs: Mutex::new(HashMap::new()) };
         // the Qt side of the model is MEASURED on the real type map
         let tm = me.fresh_type_map();
         let module = tm.get_module(ModuleId::Named(QT_MODULE)).unwrap();
@@ -156,6 +197,10 @@ struct Dir {
 #[derive(Clone, Debug)]
 struct Layout {
     dirs: Vec<Dir>,
+    /// symbolic links to directories: (path of the link, path of the directory it points to)
+    links: Vec<(Vec<String>, Vec<String>)>,
+    /// symbolic links to QML files, `(flink (dir…) "Alias" (dir…) "X")`: `dir/Alias.qml -> dir'/X.qml`
+    flinks: Vec<(Vec<String>, String, Vec<String>, String)>,
 }
 
 type Source = (Vec<String>, String);
@@ -169,6 +214,21 @@ fn obj_fields(o: &Obj) -> Vec<Sexp> {
 }
 
 impl Layout {
+    /// the `.qml` files of directory `d` as `read_dir` shows them: the files themselves and the symbolic links to files
+    /// (an alias is a QML file of its own name whose content is that of its target)
+    fn files_of(&self, d: &[String]) -> Vec<(String, &QmlFile)> {
+        let mut v: Vec<(String, &QmlFile)> =
+            self.dirs.iter().filter(|x| x.path == d).flat_map(|x| x.files.iter().map(|f| (f.stem.clone(), f))).collect();
+        for (ld, ls, td, ts) in &self.flinks {
+            if ld == d {
+                if let Some(f) = self.dirs.iter().filter(|x| &x.path == td).flat_map(|x| x.files.iter()).find(|f| &f.stem == ts) {
+                    v.push((ls.clone(), f));
+                }
+            }
+        }
+        v
+    }
+
     fn to_sexp(&self) -> Sexp {
         node(
             "tree",
@@ -198,6 +258,8 @@ impl Layout {
                     }
                     node("dir", v)
                 })
+                .chain(self.links.iter().map(|(l, t)| node("link", vec![path_sexp(l), path_sexp(t)])))
+                .chain(self.flinks.iter().map(|(ld, ls, td, ts)| node("flink", vec![path_sexp(ld), st(ls.clone()), path_sexp(td), st(ts.clone())])))
                 .collect(),
         )
     }
@@ -212,8 +274,18 @@ impl Layout {
             Some(Obj { ty: x.first()?.as_str()?.to_owned(), prop: x.get(1)?.as_str().map(str::to_owned) })
         };
         let mut dirs = vec![];
+        let mut links = vec![];
+        let mut flinks = vec![];
         for d in ds {
-            let (_, a) = d.as_node()?;
+            let (kind, a) = d.as_node()?;
+            if kind == "link" {
+                links.push((strs(a.first()?)?, strs(a.get(1)?)?));
+                continue;
+            }
+            if kind == "flink" {
+                flinks.push((strs(a.first()?)?, a.get(1)?.as_str()?.to_owned(), strs(a.get(2)?)?, a.get(3)?.as_str()?.to_owned()));
+                continue;
+            }
             let path = strs(a.first()?)?;
             let mut files = vec![];
             for f in &a[1..] {
@@ -237,7 +309,7 @@ impl Layout {
             }
             dirs.push(Dir { path, files });
         }
-        Some(Layout { dirs })
+        Some(Layout { dirs, links, flinks })
     }
 
     fn is_dir(&self, p: &[String]) -> bool {
@@ -356,7 +428,7 @@ fn gen_layout(rng: &mut Rng) -> (Layout, Vec<String>) {
     if all_stems.is_empty() {
         all_stems.push("A".to_owned());
     }
-    let layout_dirs = Layout { dirs: dirs.clone() };
+    let layout_dirs = Layout { dirs: dirs.clone(), links: vec![], flinks: vec![] };
     // half of the layouts are "clean": imports lead to existing directories, types are Qt widgets or components
     // the file can see, bindings are QWidget properties — so that many documents are accepted
     let clean = rng.chance(1, 2);
@@ -482,7 +554,356 @@ fn gen_layout(rng: &mut Rng) -> (Layout, Vec<String>) {
         labels.push("self-inherit".to_owned());
     }
     labels.push(format!("dirs{}", dirs.iter().filter(|d| !d.files.is_empty()).count()));
-    (Layout { dirs }, labels)
+    (Layout { dirs, links: vec![], flinks: vec![] }, labels)
+}
+
+/// One of the spellings of the way from directory `base` to directory `target` (both existing, canonical component
+/// lists below the root).  Every named component entered on the way exists, and no spelling climbs above the root.
+fn spell(rng: &mut Rng, base: &[String], target: &[String], dirs: &[Vec<String>]) -> (Vec<String>, &'static str) {
+    let plain = relative(base, target);
+    match rng.below(11) {
+        0 => (plain, "plain"),
+        1 => {
+            let mut v = vec![".".to_owned()];
+            v.extend(plain);
+            (v, "dot-slash")
+        }
+        2 => {
+            let mut v = plain;
+            v.push(String::new());
+            (v, "trailing-slash")
+        }
+        3 => {
+            let mut v = plain;
+            v.push(".".into());
+            (v, "trailing-dot")
+        }
+        4 => {
+            // `a//b`: an empty segment anywhere but in front (a leading one would make the path absolute)
+            let mut v = plain;
+            let at = 1 + rng.below(v.len());
+            v.insert(at, String::new());
+            (v, "double-slash")
+        }
+        5 => {
+            let mut v = plain;
+            let at = rng.below(v.len() + 1);
+            v.insert(at, ".".into());
+            (v, "inner-dot")
+        }
+        6 => {
+            // up to the root of the tree and down again
+            let mut v: Vec<String> = base.iter().map(|_| "..".to_owned()).collect();
+            v.extend(target.iter().cloned());
+            if v.is_empty() {
+                v.push(".".into());
+            }
+            (v, "via-root")
+        }
+        7 => {
+            // detour through another existing directory
+            let other = rng.pick(dirs).clone();
+            let mut v = relative(base, &other);
+            v.extend(relative(&other, target));
+            (v, "detour")
+        }
+        8 => {
+            // down into a child of the target and up again
+            let kids: Vec<&Vec<String>> = dirs.iter().filter(|d| d.len() == target.len() + 1 && d.starts_with(target)).collect();
+            let mut v = plain;
+            if !kids.is_empty() {
+                v.push(rng.pick(&kids).last().unwrap().clone());
+                v.push("..".into());
+            }
+            (v, "down-up")
+        }
+        9 => {
+            let mut v = plain;
+            v.push(".".into());
+            v.push(String::new());
+            (v, "trailing-dot-slash")
+        }
+        _ => {
+            let mut v = vec![".".to_owned(), String::new()];
+            v.extend(plain);
+            v.push(String::new());
+            v.push(String::new());
+            (v, "slashes-everywhere")
+        }
+    }
+}
+
+/// Layouts about HOW directories are imported: 2–4 directories importing each other in a cycle of length 2 or 3 (plus
+/// a self import), every import spelled in one of the ways of `spell` (`..`, `./`, `//`, trailing `/`, detours), the same
+/// directory imported under two spellings, and — with `with_links` — through symbolic links.  Everything resolves, so
+/// the documents are accepted and every component of a visible directory is usable; instances are interleaved (X, Y, X).
+fn gen_spelling_layout(rng: &mut Rng, with_links: bool) -> (Layout, Vec<Source>, Vec<String>) {
+    let mut labels = vec![if with_links { "symlinks" } else { "spellings" }.to_owned()];
+    let pool: [&[&str]; 7] = [&["a"], &["b"], &["common"], &["a", "sub"], &["b", "ui"], &["a", "sub", "Deep"], &["x1"]];
+    let n_members = 2 + rng.below(3);
+    let mut members: Vec<Vec<String>> = vec![];
+    while members.len() < n_members {
+        let p: Vec<String> = rng.pick(&pool).iter().map(|s| s.to_string()).collect();
+        if !members.contains(&p) {
+            members.push(p);
+        }
+    }
+    // parent-closed list of directories, the root first
+    let mut paths: Vec<Vec<String>> = vec![vec![]];
+    for m in &members {
+        for k in 1..=m.len() {
+            if !paths.contains(&m[..k].to_vec()) {
+                paths.push(m[..k].to_vec());
+            }
+        }
+    }
+    // symbolic links: `<parent>/lnN -> member`, and sometimes `<member>/up -> root`
+    let mut links: Vec<(Vec<String>, Vec<String>)> = vec![];
+    if with_links {
+        let n_links = 1 + rng.below(2);
+        for k in 0..n_links {
+            let target = rng.pick(&members).clone();
+            let mut lp = rng.pick(&paths).clone();
+            lp.push(format!("ln{k}"));
+            links.push((lp, target));
+        }
+        if rng.chance(1, 3) {
+            let mut lp = rng.pick(&members).clone();
+            lp.push("up".into());
+            links.push((lp, vec![]));
+            labels.push("link-to-root".into());
+        }
+    }
+    // components: distinct stems over the whole layout; file 0 of each member is its hub (carries the cycle)
+    let mut stems: Vec<&str> = STEMS.iter().copied().filter(|s| *s != "QFrame").collect();
+    rng.shuffle(&mut stems);
+    let mut next_stem = 0usize;
+    let mut dirs: Vec<Dir> = paths.iter().map(|p| Dir { path: p.clone(), files: vec![] }).collect();
+    let cycle_len = if n_members >= 3 && rng.chance(2, 3) { 3 } else { 2 };
+    labels.push(format!("cycle{cycle_len}"));
+    let mut own_stems: Vec<Vec<String>> = vec![];
+    for _ in &members {
+        let n_files = 1 + rng.below(3);
+        let v: Vec<String> = (0..n_files)
+            .filter_map(|_| {
+                let s = stems.get(next_stem).map(|s| s.to_string());
+                next_stem += 1;
+                s
+            })
+            .collect();
+        own_stems.push(v);
+    }
+    for (mi, mp) in members.iter().enumerate() {
+        // whom this directory imports: its successor in the cycle (members beyond the cycle import member 0), sometimes
+        // a second member, sometimes itself
+        let succ = if mi < cycle_len { (mi + 1) % cycle_len } else { 0 };
+        let mut targets: Vec<usize> = vec![succ];
+        if rng.chance(1, 3) {
+            targets.push(rng.below(n_members));
+        }
+        if rng.chance(1, 4) {
+            targets.push(mi);
+            labels.push("self-import".into());
+        }
+        let mut hub_imports: Vec<Import> = vec![Import::Named(QT_MODULE.into())];
+        let mut visible: Vec<usize> = vec![mi];
+        for &t in &targets {
+            let n_spellings = if rng.chance(1, 3) { 2 } else { 1 };
+            if n_spellings == 2 {
+                labels.push("two-spellings".into());
+            }
+            for _ in 0..n_spellings {
+                // through a link, if there is one to that member
+                let via: Vec<&(Vec<String>, Vec<String>)> = links.iter().filter(|(_, tg)| tg == &members[t]).collect();
+                let (segs, how) = if !via.is_empty() && rng.chance(1, 2) {
+                    let (lp, _) = *rng.pick(&via);
+                    // the way to the link's parent is spelled, the link name is appended (decorations may follow)
+                    let (mut v, _) = spell(rng, mp, &lp[..lp.len() - 1], &paths);
+                    while matches!(v.last().map(|x| x.as_str()), Some("") | Some(".")) {
+                        v.pop();
+                    }
+                    v.push(lp.last().unwrap().clone());
+                    if rng.chance(1, 3) {
+                        v.push(String::new());
+                    }
+                    (v, "via-link")
+                } else {
+                    spell(rng, mp, &members[t], &paths)
+                };
+                labels.push(format!("spell:{how}"));
+                hub_imports.push(Import::Dir(segs));
+            }
+            if !visible.contains(&t) {
+                visible.push(t);
+            }
+        }
+        if let Some((lp, _)) = links.iter().find(|(lp, tg)| tg.is_empty() && lp[..lp.len() - 1] == mp[..]) {
+            // `up/<first component of some member>/…`: through the link to the root and down again
+            let t = rng.below(n_members);
+            let mut v = vec![lp.last().unwrap().clone()];
+            v.extend(members[t].iter().cloned());
+            hub_imports.push(Import::Dir(v));
+            labels.push("spell:via-root-link".into());
+            if !visible.contains(&t) {
+                visible.push(t);
+            }
+        }
+        // types the hub may instantiate: the non-hub components of the visible directories (hubs of OTHER directories too)
+        let usable: Vec<String> = visible
+            .iter()
+            .flat_map(|&v| own_stems[v].iter().enumerate().filter(move |(k, _)| v != mi || *k > 0).map(|(_, s)| s.clone()))
+            .collect();
+        let gen_prop = |rng: &mut Rng| -> Option<String> {
+            if rng.chance(1, 2) { None } else { Some((*rng.pick(&PROPS[..3])).0.to_owned()) }
+        };
+        let d = dirs.iter_mut().find(|d| &d.path == mp).unwrap();
+        for (k, stem) in own_stems[mi].iter().enumerate() {
+            if k == 0 {
+                let mut children: Vec<Obj> = vec![];
+                let n_children = 2 + rng.below(4);
+                for _ in 0..n_children {
+                    let ty = if usable.is_empty() || rng.chance(1, 4) { (*rng.pick(&QT_CLASSES[..7])).to_owned() } else { rng.pick(&usable).clone() };
+                    children.push(Obj { ty, prop: gen_prop(rng) });
+                }
+                // X, Y, X: a repeated custom type with another custom type in between
+                if usable.len() >= 2 && rng.chance(1, 2) {
+                    let x = rng.pick(&usable).clone();
+                    let y = usable.iter().find(|u| **u != x).unwrap().clone();
+                    children.push(Obj { ty: x.clone(), prop: None });
+                    children.push(Obj { ty: y, prop: gen_prop(rng) });
+                    children.push(Obj { ty: x, prop: gen_prop(rng) });
+                    labels.push("interleaved-instances".into());
+                }
+                d.files.push(QmlFile {
+                    stem: stem.clone(),
+                    has_root: true,
+                    imports: hub_imports.clone(),
+                    root: Obj { ty: (*rng.pick(&["QWidget", "QDialog", "QGroupBox", "QFrame"])).to_owned(), prop: gen_prop(rng) },
+                    children,
+                });
+            } else {
+                // a plain component: a Qt widget, or (a chain) the previous component of this directory
+                let root_ty = if k >= 2 && rng.chance(1, 3) { own_stems[mi][k - 1].clone() } else { (*rng.pick(&QT_CLASSES[..7])).to_owned() };
+                d.files.push(QmlFile {
+                    stem: stem.clone(),
+                    has_root: true,
+                    imports: vec![Import::Named(QT_MODULE.into())],
+                    root: Obj { ty: root_ty, prop: gen_prop(rng) },
+                    children: vec![],
+                });
+            }
+        }
+    }
+    // sources: the hubs of 1..=3 members; with links sometimes named through a link to their directory
+    let mut order: Vec<usize> = (0..n_members).filter(|&i| !own_stems[i].is_empty()).collect();
+    rng.shuffle(&mut order);
+    let n_src = (1 + rng.below(3)).min(order.len());
+    let srcs: Vec<Source> = order[..n_src]
+        .iter()
+        .map(|&i| {
+            let via: Vec<&(Vec<String>, Vec<String>)> = links.iter().filter(|(_, tg)| tg == &members[i]).collect();
+            let dir = if !via.is_empty() && rng.chance(1, 3) {
+                labels.push("source-through-link".into());
+                rng.pick(&via).0.clone()
+            } else {
+                members[i].clone()
+            };
+            (dir, own_stems[i][0].clone())
+        })
+        .collect();
+    labels.push(format!("dirs{}", n_members));
+    labels.push(format!("sources{n_src}"));
+    labels.sort();
+    labels.dedup();
+    (Layout { dirs, links, flinks: vec![] }, srcs, labels)
+}
+
+/// The Qt class a type name leads to when one follows, file by file, "the type of the root object of `<name>.qml`" —
+/// decided on the layout and the real file system only, and only where it is unambiguous: at every step exactly one
+/// of the directories the current file sees (its own, its string imports that are existing directories) holds
+/// `<name>.qml`, no component is called like a Qt class, and the file naming the Qt class imports the Qt module.
+fn qt_base_of(layout: &Layout, m: &Materialised, dir: &[String], imports: &[Import], ty: &str, depth: usize) -> Option<String> {
+    if depth > 8 {
+        return None;
+    }
+    let mut visible: Vec<Vec<String>> = vec![dir.to_vec()];
+    for i in imports {
+        if let Import::Dir(segs) = i {
+            let target = m.dir(dir).join(segs.join("/"));
+            if target.is_dir() {
+                let rel = m.rel_of(&target)?;
+                if !visible.contains(&rel) {
+                    visible.push(rel);
+                }
+            }
+        }
+    }
+    let holders: Vec<(&Dir, &QmlFile)> = visible
+        .iter()
+        .filter_map(|v| layout.dirs.iter().find(|d| &d.path == v))
+        .flat_map(|d| d.files.iter().filter(|f| f.stem == ty).map(move |f| (d, f)))
+        .collect();
+    if QT_CLASSES.contains(&ty) {
+        let qt_imported = imports.iter().any(|i| matches!(i, Import::Named(n) if n == QT_MODULE));
+        let others_named = imports.iter().any(|i| matches!(i, Import::Named(n) if n != QT_MODULE));
+        return if holders.is_empty() && qt_imported && !others_named { Some(ty.to_owned()) } else { None };
+    }
+    match holders.as_slice() {
+        [(d, f)] if f.has_root => qt_base_of(layout, m, &d.path, &f.imports, &f.root.ty, depth + 1),
+        _ => None,
+    }
+}
+
+/// Layouts with a symbolic link to a QML FILE (`Alias.qml -> X.qml`, in the same or in another directory): both names
+/// are QML files of their directory, so both are usable as types (finding F50: the document cache is keyed by the
+/// fully resolved path, the component gets the name under which the file was read first).
+fn gen_alias_layout(rng: &mut Rng) -> (Layout, Vec<Source>, Vec<String>) {
+    let qt = || Import::Named(QT_MODULE.into());
+    let comp = |stem: &str, root: &str| QmlFile { stem: stem.into(), has_root: true, imports: vec![qt()], root: Obj { ty: root.into(), prop: None }, children: vec![] };
+    let hub = |stem: &str, imports: Vec<Import>, kids: &[&str]| QmlFile {
+        stem: stem.into(),
+        has_root: true,
+        imports,
+        root: Obj { ty: "QWidget".into(), prop: None },
+        children: kids.iter().map(|k| Obj { ty: k.to_string(), prop: None }).collect(),
+    };
+    let alias = (*rng.pick(&["Aaa", "Zzz", "Link", "M"])).to_owned();
+    let target = (*rng.pick(&["X", "MyBox", "B"])).to_owned();
+    let a = vec!["a".to_owned()];
+    let b = vec!["b".to_owned()];
+    let same_dir = rng.chance(1, 2);
+    let mut labels = vec!["file-alias".to_owned(), if same_dir { "alias-same-dir" } else { "alias-other-dir" }.to_owned()];
+    let (dirs, flinks, srcs) = if same_dir {
+        (
+            vec![
+                Dir { path: vec![], files: vec![] },
+                Dir { path: a.clone(), files: vec![comp(&target, "QLabel"), hub("Main", vec![qt()], &[&target, &alias, "QLabel"])] },
+            ],
+            vec![(a.clone(), alias.clone(), a.clone(), target.clone())],
+            vec![(a.clone(), "Main".to_owned())],
+        )
+    } else {
+        let mut srcs = vec![(a.clone(), "Main".to_owned()), (b.clone(), "Main2".to_owned())];
+        if rng.chance(1, 2) {
+            srcs.reverse();
+        }
+        (
+            vec![
+                Dir { path: vec![], files: vec![] },
+                Dir { path: a.clone(), files: vec![comp(&target, "QLabel"), hub("Main", vec![qt()], &[&target])] },
+                Dir { path: b.clone(), files: vec![comp("Other", "QFrame"), hub("Main2", vec![qt()], &[&alias, "Other"])] },
+            ],
+            vec![(b.clone(), alias.clone(), a.clone(), target.clone())],
+            srcs,
+        )
+    };
+    labels.push(format!("sources{}", srcs.len()));
+    (Layout { dirs, links: vec![], flinks }, srcs, labels)
+}
+
+/// the alias family is generated once finding F50 is listed (known or fixed) in KNOWN_FINDINGS.json
+fn f50_listed() -> bool {
+    fs::read_to_string(concat!(env!("CARGO_MANIFEST_DIR"), "/../KNOWN_FINDINGS.json")).map(|t| t.contains("\"F50\"")).unwrap_or(false)
 }
 
 fn permutations<T: Clone>(xs: &[T]) -> Vec<Vec<T>> {
@@ -544,7 +965,23 @@ impl Materialised {
                 fs::write(dp.join(format!("{}.qml", f.stem)), qml_text(f)).unwrap();
             }
         }
+        for (l, t) in &layout.links {
+            let lp = l.iter().fold(root.clone(), |p, s| p.join(s));
+            let tp = t.iter().fold(root.clone(), |p, s| p.join(s));
+            std::os::unix::fs::symlink(&tp, &lp).unwrap();
+        }
+        for (ld, ls, td, ts) in &layout.flinks {
+            let lp = ld.iter().fold(root.clone(), |p, s| p.join(s)).join(format!("{ls}.qml"));
+            let tp = td.iter().fold(root.clone(), |p, s| p.join(s)).join(format!("{ts}.qml"));
+            std::os::unix::fs::symlink(&tp, &lp).unwrap();
+        }
         Materialised { top, root }
+    }
+
+    /// components of the canonical form of `abs` below the layout's root (`None`: does not exist / lies outside)
+    fn rel_of(&self, abs: &camino::Utf8Path) -> Option<Vec<String>> {
+        let c = abs.canonicalize_utf8().ok()?;
+        Some(c.strip_prefix(&self.root).ok()?.components().map(|c| c.as_str().to_owned()).collect())
     }
 
     fn dir(&self, p: &[String]) -> Utf8PathBuf {
@@ -564,6 +1001,10 @@ struct SrcOut {
     body: Vec<Sexp>,
     accepted: bool,
     customs: Vec<(String, String, String)>,
+    /// diagnostic messages (`None`: not loaded / syntax error)
+    diags: Option<Vec<String>>,
+    /// widgets of the .ui (root first): class and the property names set on it
+    widgets: Vec<(String, Vec<String>)>,
 }
 
 #[derive(Clone, Debug, PartialEq, Eq)]
@@ -626,17 +1067,18 @@ impl C18 {
             let name = if p.is_empty() { format!("{s}.qml") } else { format!("{}/{s}.qml", rel_name(p)) };
             // like generate_ui_file: the document populate_directories has read
             let Some(doc) = cache.get(path) else {
-                outputs.push(SrcOut { name, body: vec![atom("not-loaded")], accepted: false, customs: vec![] });
+                outputs.push(SrcOut { name, body: vec![atom("not-loaded")], accepted: false, customs: vec![], diags: None, widgets: vec![] });
                 continue;
             };
             let t = env::translate_doc(&tm, doc, Mode::Generate);
             if t.syntax_errors > 0 {
-                outputs.push(SrcOut { name, body: vec![atom("syntax-error")], accepted: false, customs: vec![] });
+                outputs.push(SrcOut { name, body: vec![atom("syntax-error")], accepted: false, customs: vec![], diags: None, widgets: vec![] });
                 continue;
             }
             let mut msgs: Vec<String> = t.diags.iter().map(|d| strip(&d.message)).collect();
             msgs.sort();
             let mut widgets = vec![];
+            let mut widget_props: Vec<(String, Vec<String>)> = vec![];
             let mut customs = vec![];
             if let Some(ui) = &t.ui {
                 let ui = xml::strip_indent(&xml::parse(ui).expect("well-formed ui"));
@@ -648,6 +1090,12 @@ impl C18 {
                 if let Some(rw) = ui.child("widget") {
                     widgets.push(widget(rw));
                     widgets.extend(rw.children_named("widget").map(widget));
+                    for e in std::iter::once(rw).chain(rw.children_named("widget")) {
+                        widget_props.push((
+                            e.attr("class").unwrap_or("?").to_owned(),
+                            e.children_named("property").map(|p| p.attr("name").unwrap_or("?").to_owned()).collect(),
+                        ));
+                    }
                 }
                 if let Some(cw) = ui.child("customwidgets") {
                     for c in cw.children_named("customwidget") {
@@ -656,6 +1104,7 @@ impl C18 {
                     }
                 }
             }
+            let diag_msgs = msgs.clone();
             let body = vec![
                 node("accepted", vec![boolean(t.accepted())]),
                 node("built", vec![boolean(t.built)]),
@@ -666,54 +1115,147 @@ impl C18 {
                     customs.iter().map(|(a, b, c)| list(vec![st(a.clone()), st(b.clone()), st(c.clone())])).collect(),
                 ),
             ];
-            outputs.push(SrcOut { name, body, accepted: t.accepted(), customs });
+            outputs.push(SrcOut { name, body, accepted: t.accepted(), customs, diags: Some(diag_msgs), widgets: widget_props });
         }
         Ok(RunOut { dirs, modules, outputs })
     }
 
-    /// Independent reachability on the REAL file system (oracle for the discovered directory set).
+    /// Independent reachability on the REAL file system (oracle for the discovered directory set): directories are
+    /// identified by their canonical path, so every spelling of a directory (and every symlink to it) is that directory.
     fn reach_real(&self, layout: &Layout, srcs: &[Source]) -> Vec<String> {
         let m = Materialised::new(layout);
-        let mut seen: BTreeSet<Utf8PathBuf> = BTreeSet::new();
-        let mut todo: Vec<Utf8PathBuf> = srcs.iter().map(|(p, _)| m.dir(p)).collect();
+        let outside = vec!["<outside>".to_owned()];
+        let mut seen: BTreeSet<Vec<String>> = BTreeSet::new();
+        let mut todo: Vec<Vec<String>> = srcs.iter().map(|(p, _)| m.rel_of(&m.dir(p)).unwrap_or(outside.clone())).collect();
         while let Some(d) = todo.pop() {
             if !seen.insert(d.clone()) {
                 continue;
             }
-            let rel: Vec<String> =
-                d.strip_prefix(&m.root).unwrap().components().map(|c| c.as_str().to_owned()).collect();
-            let Some(ld) = layout.dirs.iter().find(|x| x.path == rel) else { continue };
+            let Some(ld) = layout.dirs.iter().find(|x| x.path == d) else { continue };
             for f in ld.files.iter().filter(|f| f.has_root) {
                 for i in &f.imports {
                     if let Import::Dir(segs) = i {
-                        let target = d.join(segs.join("/"));
+                        let target = m.dir(&d).join(segs.join("/"));
                         if target.is_dir() {
-                            todo.push(target.canonicalize_utf8().unwrap());
+                            todo.push(m.rel_of(&target).unwrap_or(outside.clone()));
                         }
                     }
                 }
             }
         }
-        let mut v: Vec<String> = seen.iter().map(|d| d.strip_prefix(&m.root).map(|r| r.as_str().to_owned()).unwrap_or("<outside>".into())).collect();
+        let mut v: Vec<String> = seen.iter().map(|d| rel_name(d)).collect();
         v.sort();
         v
     }
+
+    // -----------------------------------------------------------------------------------------
+    // preflight: the real binary, guarded
+
+    fn preflight(&self, layout: &Layout, srcs: &[Source]) -> Result<Preflight, String> {
+        let mut sorted: Vec<Source> = srcs.to_vec();
+        sorted.sort();
+        sorted.dedup();
+        let key = format!("{} {}", layout.to_sexp().render(), sources_sexp(&sorted).render());
+        let cell = {
+            let mut m = self.preflights.lock().unwrap();
+            m.entry(key).or_insert_with(|| Arc::new(OnceLock::new())).clone()
+        };
+        cell.get_or_init(|| {
+            let (pre, out) = preflight_run(layout, &sorted);
+            if let Some(out) = out {
+                let c = self.cli_cell(layout, &sorted, &[]);
+                let _ = c.set(out);
+            }
+            pre
+        })
+        .clone()
+    }
+
+    fn cli_cell(&self, layout: &Layout, srcs: &[Source], flags: &[&str]) -> Arc<OnceLock<CliOut>> {
+        let key = format!("{} {} {}", layout.to_sexp().render(), sources_sexp(srcs).render(), flags.join(" "));
+        let mut m = self.cli_runs.lock().unwrap();
+        m.entry(key).or_insert_with(|| Arc::new(OnceLock::new())).clone()
+    }
+
+    /// one run of the real binary per (layout, source ORDER, flags) and process
+    fn run_cli_cached(&self, layout: &Layout, srcs: &[Source], flags: &[&str]) -> CliOut {
+        let cell = self.cli_cell(layout, srcs, flags);
+        cell.get_or_init(|| run_cli_flags(&env::cli_binary(), layout, srcs, flags)).clone()
+    }
 }
 
-/// One CLI run in a fresh copy of the layout: (exit status, written .ui files with their content).
-fn run_cli(bin: &std::path::Path, layout: &Layout, srcs: &[Source]) -> (i32, BTreeMap<String, String>) {
-    let m = Materialised::new(layout);
-    let args: Vec<String> =
-        srcs.iter().map(|(p, s)| if p.is_empty() { format!("{s}.qml") } else { format!("{}/{s}.qml", rel_name(p)) }).collect();
-    let out = std::process::Command::new(bin)
+fn source_args(srcs: &[Source]) -> Vec<String> {
+    srcs.iter().map(|(p, s)| if p.is_empty() { format!("{s}.qml") } else { format!("{}/{s}.qml", rel_name(p)) }).collect()
+}
+
+struct CliRun {
+    code: Option<i32>,
+    stderr: String,
+    /// why the harness killed the process (None: it ended by itself)
+    killed: Option<String>,
+}
+
+/// Runs the real binary on `sources` in `m.root`.  Its address space is limited (`ulimit -v`, 4 GiB); it is killed after
+/// the time limit (`QV_C18_CLI_TIMEOUT`, default 60 s) and — when `max_dirs` is given, which turns the directory trace
+/// on — as soon as it has logged more `processing directory` lines than that.
+fn guarded_cli(bin: &std::path::Path, m: &Materialised, flags: &[&str], sources: &[String], max_dirs: Option<usize>) -> CliRun {
+    use std::process::{Command, Stdio};
+    let n = COUNTER.fetch_add(1, Ordering::Relaxed);
+    let log = m.top.join(format!("stderr-{n}.log"));
+    let errf = fs::File::create(&log).expect("stderr file");
+    let mut cmd = Command::new("sh");
+    cmd.arg("-c")
+        .arg("ulimit -v 4194304; exec \"$0\" \"$@\"")
+        .arg(bin)
         .current_dir(&m.root)
         .env("NO_COLOR", "")
+        .env_remove("QMLUIC_LOG")
         .arg("generate-ui")
         .arg("--foreign-types")
         .arg(format!("{}/contrib/metatypes", env::REPO))
-        .args(&args)
-        .output()
-        .expect("qmluic binary runs");
+        .args(flags)
+        .args(sources)
+        .stdin(Stdio::null())
+        .stdout(Stdio::null())
+        .stderr(errf);
+    if max_dirs.is_some() {
+        cmd.env("QMLUIC_LOG", "qmluic::qmldir=trace");
+    }
+    let mut child = cmd.spawn().expect("qmluic binary starts");
+    let limit = std::time::Duration::from_secs(std::env::var("QV_C18_CLI_TIMEOUT").ok().and_then(|v| v.parse().ok()).unwrap_or(60));
+    let start = std::time::Instant::now();
+    let mut killed = None;
+    let mut seen_len = 0u64;
+    let code = loop {
+        if let Some(st) = child.try_wait().expect("wait") {
+            break st.code();
+        }
+        if let Some(max) = max_dirs {
+            let len = fs::metadata(&log).map(|x| x.len()).unwrap_or(0);
+            if len != seen_len {
+                seen_len = len;
+                let n_dirs = fs::read(&log).map(|b| String::from_utf8_lossy(&b).matches("processing directory ").count()).unwrap_or(0);
+                if n_dirs > max {
+                    killed = Some(format!("discovery does not settle: {n_dirs} `processing directory` lines and counting, the layout has {max} directories"));
+                }
+            }
+        }
+        if killed.is_none() && start.elapsed() > limit {
+            killed = Some(format!("no result within {} s", limit.as_secs()));
+        }
+        if killed.is_some() {
+            let _ = child.kill();
+            let _ = child.wait();
+            break None;
+        }
+        std::thread::sleep(std::time::Duration::from_millis(3));
+    };
+    let stderr = fs::read(&log).map(|b| String::from_utf8_lossy(&b).into_owned()).unwrap_or_default();
+    let _ = fs::remove_file(&log);
+    CliRun { code, stderr, killed }
+}
+
+fn written_ui(layout: &Layout, m: &Materialised) -> BTreeMap<String, String> {
     let mut written = BTreeMap::new();
     for d in &layout.dirs {
         let dp = m.dir(&d.path);
@@ -725,7 +1267,57 @@ fn run_cli(bin: &std::path::Path, layout: &Layout, srcs: &[Source]) -> (i32, BTr
             }
         }
     }
-    (out.status.code().unwrap_or(-1), written)
+    written
+}
+
+fn preflight_run(layout: &Layout, srcs: &[Source]) -> (Result<Preflight, String>, Option<CliOut>) {
+    let bin = env::cli_binary();
+    let m = Materialised::new(layout);
+    let run = guarded_cli(&bin, &m, &[], &source_args(srcs), Some(layout.dirs.len()));
+    let out = match (&run.killed, run.code) {
+        (None, Some(c)) => Some((c, written_ui(layout, &m))),
+        _ => None,
+    };
+    (preflight_judge(&m, run), out)
+}
+
+fn preflight_judge(m: &Materialised, run: CliRun) -> Result<Preflight, String> {
+    let quoted = |line: &str, what: &str| -> Option<String> {
+        let rest = &line[line.find(what)? + what.len()..];
+        let rest = rest.strip_prefix('"')?;
+        Some(rest[..rest.rfind('"')?].to_owned())
+    };
+    let canon = |raw: &str| m.rel_of(camino::Utf8Path::new(raw)).map(|r| rel_name(&r)).unwrap_or_else(|| "<outside>".to_owned());
+    let mut dirs = vec![];
+    let mut files = vec![];
+    for line in run.stderr.lines() {
+        if let Some(p) = quoted(line, "processing directory ") {
+            let c = canon(&p);
+            dirs.push((p.replace(m.root.as_str(), ""), c));
+        } else if let Some(p) = quoted(line, "processing file ") {
+            // a file is identified by its (canonical) directory and its own name: an alias is a file of its own
+            let p = camino::Utf8Path::new(&p);
+            let dir = p.parent().map(|d| canon(d.as_str())).unwrap_or_default();
+            let name = p.file_name().unwrap_or("?");
+            files.push(if dir.is_empty() { name.to_owned() } else { format!("{dir}/{name}") });
+        }
+    }
+    let shown = || dirs.iter().take(5).map(|d| format!("{:?}", d.0)).collect::<Vec<_>>().join(" ");
+    if let Some(why) = run.killed {
+        return Err(format!("{why}; first directories logged: {}", shown()));
+    }
+    match run.code {
+        Some(c) => Ok(Preflight { exit: c, dirs, files }),
+        None => Err(format!("the binary was ended by a signal (memory limit 4 GiB?) after {} `processing directory` lines: {}", dirs.len(), shown())),
+    }
+}
+
+/// One CLI run in a fresh copy of the layout: (exit status, written .ui files with their content).
+/// (only used after the preflight of the layout has passed; guarded by the time and memory limits all the same)
+fn run_cli_flags(bin: &std::path::Path, layout: &Layout, srcs: &[Source], flags: &[&str]) -> (i32, BTreeMap<String, String>) {
+    let m = Materialised::new(layout);
+    let run = guarded_cli(bin, &m, flags, &source_args(srcs), None);
+    (if run.killed.is_some() { -2 } else { run.code.unwrap_or(-1) }, written_ui(layout, &m))
 }
 
 fn run_out_sexp(r: &RunOut) -> Sexp {
@@ -768,9 +1360,46 @@ fn sample_perms(srcs: &[Source], rng: &mut Rng) -> Vec<Vec<Source>> {
 impl Stream for C18 {
     fn generate(&self, seed: u64, thorough: bool) -> Vec<Case> {
         let mut rng = Rng::fork(seed, "c18", 0);
-        let n_layouts = if thorough { 3_000 } else { 500 };
+        let n_layouts = if thorough { 3_000 } else { 360 };
         let mut cases = vec![];
         let qt = self.qt_sexp();
+        // import spellings, cycles of length 2 and 3, one directory under two spellings (model + oracles); with symbolic
+        // links (outside the model: oracles only)
+        let n_spell = if thorough { 900 } else { 110 };
+        let n_links = if thorough { 400 } else { 50 };
+        for k in 0..n_spell + n_links {
+            let with_links = k >= n_spell;
+            let mut r2 = Rng::fork(seed, if with_links { "c18-links" } else { "c18-spell" }, k as u64);
+            let (layout, srcs, labels) = gen_spelling_layout(&mut r2, with_links);
+            let tree = layout.to_sexp();
+            let args = vec![qt.clone(), tree.clone(), sources_sexp(&srcs)];
+            if !with_links {
+                for p in &permutations(&srcs) {
+                    cases.push(Case { kind: "model", labels: labels.clone(), request: node("c18", vec![qt.clone(), tree.clone(), sources_sexp(p)]) });
+                }
+                cases.push(Case { kind: "spec", labels: labels.clone(), request: node("spec-c18-dirs", args.clone()) });
+                cases.push(Case { kind: "model", labels: labels.clone(), request: node("c18-cliout", args.clone()) });
+            }
+            for tag in ["c18-once", "c18-resolve", "c18-reach", "c18-exact", "c18-perms"] {
+                cases.push(Case { kind: "oracle", labels: labels.clone(), request: node(tag, args.clone()) });
+            }
+            if k % 3 == 0 {
+                cases.push(Case { kind: "oracle", labels: labels.clone(), request: node("c18-nolower", args.clone()) });
+            }
+            if k % 4 == 1 {
+                cases.push(Case { kind: "oracle", labels: labels.clone(), request: node("c18-cli6", args.clone()) });
+            }
+        }
+        if f50_listed() {
+            for k in 0..if thorough { 60 } else { 12 } {
+                let mut r2 = Rng::fork(seed, "c18-alias", k as u64);
+                let (layout, srcs, labels) = gen_alias_layout(&mut r2);
+                let args = vec![qt.clone(), layout.to_sexp(), sources_sexp(&srcs)];
+                for tag in ["c18-resolve", "c18-perms", "c18-once"] {
+                    cases.push(Case { kind: "oracle", labels: labels.clone(), request: node(tag, args.clone()) });
+                }
+            }
+        }
         for _ in 0..n_layouts {
             let (layout, mut labels) = gen_layout(&mut rng);
             let candidates: Vec<Source> = layout
@@ -800,6 +1429,11 @@ impl Stream for C18 {
             cases.push(Case { kind: "oracle", labels: labels.clone(), request: node("c18-perms", args.clone()) });
             cases.push(Case { kind: "oracle", labels: labels.clone(), request: node("c18-exact", args.clone()) });
             cases.push(Case { kind: "oracle", labels: labels.clone(), request: node("c18-reach", args.clone()) });
+            cases.push(Case { kind: "oracle", labels: labels.clone(), request: node("c18-once", args.clone()) });
+            cases.push(Case { kind: "oracle", labels: labels.clone(), request: node("c18-resolve", args.clone()) });
+            if cases.len() % 5 == 0 {
+                cases.push(Case { kind: "oracle", labels: labels.clone(), request: node("c18-nolower", args.clone()) });
+            }
             // the real binary: order independence (≤ 6 orders) and, for two orders, the model of the loop
             cases.push(Case { kind: "oracle", labels: labels.clone(), request: node("c18-cli6", args.clone()) });
             cases.push(Case { kind: "model", labels: labels.clone(), request: node("c18-cliout", args) });
@@ -816,7 +1450,192 @@ impl Stream for C18 {
         }
         let Some(layout) = Layout::from_sexp(&args[1]) else { return node("bad-request", vec![]) };
         let Some(srcs) = parse_sources(&args[2]) else { return node("bad-request", vec![]) };
+        // the real binary first, guarded: a discovery that does not terminate must not be run in-process
+        let pre = match self.preflight(&layout, &srcs) {
+            Ok(p) => p,
+            Err(why) => return node("fail", vec![st("preflight"), st(why)]),
+        };
         match tag {
+            "c18-once" => {
+                if pre.exit != 0 && pre.exit != 1 {
+                    return node("violation", vec![atom("cli-exit-status"), atom(pre.exit.to_string())]);
+                }
+                let mut count: BTreeMap<&str, usize> = BTreeMap::new();
+                for (_, c) in &pre.dirs {
+                    *count.entry(c.as_str()).or_insert(0) += 1;
+                }
+                if let Some((d, n)) = count.iter().find(|(_, n)| **n > 1) {
+                    let spellings: Vec<Sexp> = pre.dirs.iter().filter(|(_, c)| c == d).map(|(raw, _)| st(raw.clone())).collect();
+                    return node("violation", vec![atom("directory-processed-more-than-once"), st(d.to_string()), atom(n.to_string()), node("as", spellings)]);
+                }
+                if count.contains_key("<outside>") {
+                    return node("violation", vec![atom("escaped-root")]);
+                }
+                let got: Vec<String> = count.keys().map(|d| d.to_string()).collect();
+                let want = self.reach_real(&layout, &srcs);
+                if got != want {
+                    return node(
+                        "violation",
+                        vec![
+                            atom("processed-differs-from-reachable"),
+                            node("processed", got.iter().map(|d| st(d.clone())).collect()),
+                            node("reachable", want.iter().map(|d| st(d.clone())).collect()),
+                        ],
+                    );
+                }
+                // every .qml file of a processed directory exactly once, nothing else
+                let mut files = pre.files.clone();
+                files.sort();
+                let mut want_files: Vec<String> = layout
+                    .dirs
+                    .iter()
+                    .filter(|d| got.contains(&rel_name(&d.path)))
+                    .flat_map(|d| {
+                        layout.files_of(&d.path).into_iter().map(|(stem, _)| if d.path.is_empty() { format!("{stem}.qml") } else { format!("{}/{stem}.qml", rel_name(&d.path)) })
+                    })
+                    .collect();
+                want_files.sort();
+                if files != want_files {
+                    return node(
+                        "violation",
+                        vec![
+                            atom("files-processed"),
+                            node("processed", files.iter().map(|d| st(d.clone())).collect()),
+                            node("expected-each-once", want_files.iter().map(|d| st(d.clone())).collect()),
+                        ],
+                    );
+                }
+                node("ok", vec![node("dirs", vec![atom(got.len().to_string())]), node("files", vec![atom(files.len().to_string())])])
+            }
+            "c18-resolve" => {
+                let r = match self.run_real(&layout, &srcs) {
+                    Ok(r) => r,
+                    Err(e) => return node("violation", vec![e]),
+                };
+                let m = Materialised::new(&layout);
+                let mut checked = 0usize;
+                for ((p, s), o) in srcs.iter().zip(&r.outputs) {
+                    let Some(diags) = &o.diags else {
+                        return node("violation", vec![atom("source-not-translated"), st(o.name.clone())]);
+                    };
+                    let Some(rp) = m.rel_of(&m.dir(p)) else { return node("bad-request", vec![]) };
+                    let Some(f) = layout.dirs.iter().find(|d| d.path == rp).and_then(|d| d.files.iter().find(|f| &f.stem == s)) else {
+                        return node("bad-request", vec![]);
+                    };
+                    // what the file system says about the imports
+                    let mut visible: Vec<Vec<String>> = vec![rp.clone()];
+                    let mut unresolved = 0usize;
+                    for i in &f.imports {
+                        match i {
+                            Import::Named(n) => {
+                                if n != QT_MODULE {
+                                    unresolved += 1;
+                                }
+                            }
+                            Import::Dir(segs) => {
+                                let target = m.dir(p).join(segs.join("/"));
+                                match (target.is_dir(), m.rel_of(&target)) {
+                                    (true, Some(rel)) => visible.push(rel),
+                                    _ => unresolved += 1,
+                                }
+                            }
+                        }
+                    }
+                    let not_found = diags.iter().filter(|d| d.as_str() == "module not found").count();
+                    if not_found != unresolved {
+                        return node(
+                            "violation",
+                            vec![
+                                atom("module-not-found"),
+                                st(o.name.clone()),
+                                node("diagnosed", vec![atom(not_found.to_string())]),
+                                node("imports-that-lead-nowhere", vec![atom(unresolved.to_string())]),
+                                node("imports", f.imports.iter().filter_map(|i| if let Import::Dir(x) = i { Some(st(x.join("/"))) } else { None }).collect()),
+                            ],
+                        );
+                    }
+                    if diags.iter().any(|d| d == "directory module not found") {
+                        return node("violation", vec![atom("own-directory-module-not-found"), st(o.name.clone())]);
+                    }
+                    // X.qml (with a root object) in a visible directory ⇒ X is a known type
+                    for used in std::iter::once(&f.root).chain(&f.children) {
+                        let has_file = visible.iter().any(|v| layout.files_of(v).iter().any(|(stem, x)| x.has_root && *stem == used.ty));
+                        if has_file {
+                            checked += 1;
+                            if diags.iter().any(|d| *d == format!("unknown object type: {}", used.ty)) {
+                                return node("violation", vec![atom("component-file-not-usable-as-type"), st(o.name.clone()), st(used.ty.clone())]);
+                            }
+                        }
+                        // an instance of a component accepts the properties of the component's (Qt) base class
+                        if let (true, Some(prop)) = (has_file && !QT_CLASSES.contains(&used.ty.as_str()), &used.prop) {
+                            if let Some(base) = qt_base_of(&layout, &m, &rp, &f.imports, &used.ty, 0) {
+                                let has_prop = self.qt.iter().any(|(n, _, ps)| *n == base && ps.contains(prop));
+                                if has_prop {
+                                    checked += 1;
+                                    if diags.iter().any(|d| d.contains("unknown property") && d.contains(&format!("'{}'", used.ty)) && d.ends_with(&format!(": {prop}"))) {
+                                        return node(
+                                            "violation",
+                                            vec![atom("base-class-property-rejected"), st(o.name.clone()), st(used.ty.clone()), st(base), st(prop.clone())],
+                                        );
+                                    }
+                                    if o.accepted && !o.widgets.iter().any(|(c, ps)| *c == used.ty && ps.contains(prop)) {
+                                        return node(
+                                            "violation",
+                                            vec![atom("base-class-property-not-in-ui"), st(o.name.clone()), st(used.ty.clone()), st(base), st(prop.clone())],
+                                        );
+                                    }
+                                }
+                            }
+                        }
+                    }
+                }
+                node("ok", vec![atom(checked.to_string())])
+            }
+            "c18-nolower" => {
+                let r = match self.run_real(&layout, &srcs) {
+                    Ok(r) => r,
+                    Err(e) => return node("violation", vec![e]),
+                };
+                let m = Materialised::new(&layout);
+                let (code, written) = self.run_cli_cached(&layout, &srcs, &["--no-lowercase-file-name"]);
+                let mut expected: BTreeSet<String> = BTreeSet::new();
+                for ((p, s), o) in srcs.iter().zip(&r.outputs) {
+                    if o.accepted {
+                        let rp = m.rel_of(&m.dir(p)).unwrap_or_else(|| p.clone());
+                        expected.insert(if rp.is_empty() { format!("{s}.ui") } else { format!("{}/{s}.ui", rel_name(&rp)) });
+                    }
+                }
+                let got: BTreeSet<String> = written.keys().cloned().collect();
+                if got != expected {
+                    return node(
+                        "violation",
+                        vec![
+                            atom("files-with-no-lowercase-file-name"),
+                            node("written", got.iter().map(|d| st(d.clone())).collect()),
+                            node("expected", expected.iter().map(|d| st(d.clone())).collect()),
+                        ],
+                    );
+                }
+                let all_ok = r.outputs.iter().all(|o| o.accepted);
+                if code != if all_ok { 0 } else { 1 } {
+                    return node("violation", vec![atom("cli-exit-status"), atom(code.to_string())]);
+                }
+                let mut checked = 0usize;
+                for (name, text) in &written {
+                    let Ok(ui) = xml::parse(text) else { return node("violation", vec![atom("ill-formed-ui"), st(name.clone())]) };
+                    let ui = xml::strip_indent(&ui);
+                    if let Some(cw) = ui.child("customwidgets") {
+                        for c in cw.children_named("customwidget") {
+                            let g = |n: &str| c.child(n).map(|e| e.text()).unwrap_or_default();
+                            checked += 1;
+                            if g("header") != format!("{}.h", g("class")) {
+                                return node("violation", vec![atom("header-case"), st(name.clone()), st(g("class")), st(g("header"))]);
+                            }
+                        }
+                    }
+                }
+                node("ok", vec![atom(checked.to_string())])
+            }
             "c18" => match self.run_real(&layout, &srcs) {
                 Ok(r) => run_out_sexp(&r),
                 Err(e) => e,
@@ -863,21 +1682,34 @@ impl Stream for C18 {
                 node("ok", vec![atom(perms.len().to_string())])
             }
             "c18-cli" | "c18-cli6" => {
-                let bin = env::cli_binary();
                 let mut rng = Rng::fork(srcs.len() as u64, "c18-cli", layout.dirs.len() as u64);
                 let mut perms = sample_perms(&srcs, &mut rng);
+                // the order the preflight ran with (sorted) is one of the orders compared: that run is shared
+                let mut sorted = srcs.clone();
+                sorted.sort();
+                if sorted.windows(2).all(|w| w[0] != w[1]) && !perms.contains(&sorted) {
+                    perms.push(sorted.clone());
+                }
                 if tag == "c18-cli6" && perms.len() > 6 {
-                    // the given order, its reverse, and four more spread over the enumeration
+                    // the given order, its reverse, the sorted one, and three more spread over the enumeration
                     let n = perms.len();
-                    let pick: Vec<usize> = vec![0, n - 1, n / 5, 2 * n / 5, 3 * n / 5, 4 * n / 5];
+                    let mut pick: Vec<usize> = vec![0, if n >= 2 && perms[1] == srcs.iter().rev().cloned().collect::<Vec<_>>() { 1 } else { n - 1 }];
+                    if let Some(k) = perms.iter().position(|p| *p == sorted) {
+                        pick.push(k);
+                    }
+                    for k in [n / 5, 2 * n / 5, 3 * n / 5, 4 * n / 5, n - 1] {
+                        if pick.len() < 6 && !pick.contains(&k) {
+                            pick.push(k);
+                        }
+                    }
                     perms = pick.into_iter().map(|i| perms[i].clone()).collect();
                 }
-                let first = run_cli(&bin, &layout, &perms[0]);
+                let first = self.run_cli_cached(&layout, &perms[0], &[]);
                 if first.0 != 0 && first.0 != 1 {
                     return node("violation", vec![atom("cli-exit-status"), atom(first.0.to_string())]);
                 }
                 for p in &perms[1..] {
-                    let cur = run_cli(&bin, &layout, p);
+                    let cur = self.run_cli_cached(&layout, p, &[]);
                     if cur != first {
                         let files = |r: &(i32, BTreeMap<String, String>)| {
                             let mut v = vec![atom(format!("exit{}", r.0))];
@@ -893,8 +1725,7 @@ impl Stream for C18 {
                 node("ok", vec![atom(perms.len().to_string())])
             }
             "c18-cliout" => {
-                let bin = env::cli_binary();
-                let (code, written) = run_cli(&bin, &layout, &srcs);
+                let (code, written) = self.run_cli_cached(&layout, &srcs, &[]);
                 node(
                     "cli",
                     vec![node("exit", vec![atom(code.to_string())]), node("written", written.keys().map(|k| st(k.clone())).collect())],
@@ -913,16 +1744,18 @@ impl Stream for C18 {
                     if !o.accepted {
                         continue;
                     }
-                    let d = layout.dirs.iter().find(|d| &d.path == p).unwrap();
+                    let rp = m.rel_of(&m.dir(p)).unwrap_or_else(|| p.clone());
+                    let d = layout.dirs.iter().find(|d| d.path == rp).unwrap();
                     let f = d.files.iter().find(|f| &f.stem == s).unwrap();
                     // directories the document sees: its own and the string imports that are directories
-                    let mut visible: Vec<Vec<String>> = vec![p.clone()];
+                    let mut visible: Vec<Vec<String>> = vec![rp.clone()];
                     for i in &f.imports {
                         if let Import::Dir(segs) = i {
                             let target = m.dir(p).join(segs.join("/"));
                             if target.is_dir() {
-                                let c = target.canonicalize_utf8().unwrap();
-                                visible.push(c.strip_prefix(&m.root).unwrap().components().map(|c| c.as_str().to_owned()).collect());
+                                if let Some(rel) = m.rel_of(&target) {
+                                    visible.push(rel);
+                                }
                             }
                         }
                     }
